@@ -78,7 +78,11 @@ impl Worker {
 
                     println!("Worker {} got a job; executing.", id);
 
-                    job();
+                    // a job that panics must not end the worker thread: the pool would silently lose capacity
+                    let boxed_job_result = std::panic::catch_unwind(std::panic::AssertUnwindSafe(job));
+                    if boxed_job_result.is_err() {
+                        eprintln!("Worker {} -> job panicked", id);
+                    }
                     #[cfg(rws_verif)]
                     crate::verif::at(crate::verif::Point::JobDone, id, 0);
                 }
